@@ -743,6 +743,9 @@ func smallTemplates() []Case {
 }
 
 func TestTruncationExhaustive(t *testing.T) {
+	if kit.Race() {
+		t.Skip("the race shard runs the concurrent check only")
+	}
 	tmpl := smallTemplates()
 	if !kit.Thorough() {
 		tmpl = []Case{tmpl[2], tmpl[4]}
@@ -765,6 +768,9 @@ func TestTruncationExhaustive(t *testing.T) {
 }
 
 func TestDialAndNonHTTPMatrix(t *testing.T) {
+	if kit.Race() {
+		t.Skip("the race shard runs the concurrent check only")
+	}
 	propMatrix.Enumerate(t, func(yield func(Case) bool) {
 		for _, post := range []bool{false, true} {
 			for _, d := range dialOutcomes {
@@ -848,6 +854,9 @@ func TestDialAndNonHTTPMatrix(t *testing.T) {
 }
 
 func TestFaults(t *testing.T) {
+	if kit.Race() {
+		t.Skip("the race shard runs the concurrent check only")
+	}
 	propFaults.Check(t, kit.N(300, 800))
 }
 
